@@ -24,10 +24,12 @@ def worker(arg):
     c, out = st["case"], st["out"]
     fname = "%s%s.%d.%d.dsdl" % (("%d." % c["port"]) if c["port"] >= 0 else "", c["name"], c["ver"][0], c["ver"][1])
     rel_file = "/".join(["ws", "proj", "animals"] + NS[c["depth"]] + [fname])
-    fs = {rel_file: "@sealed\n", "ws/proj/plants/trees/Oak.1.0.dsdl": "@sealed\n", "other/.keep": ""}
+    # the whole tree lives in a directory whose name differs from the root namespace's only by letter case (an ancestor that
+    # a case-insensitive comparison would mistake for the root)
+    fs = {"Animals/" + rel_file: "@sealed\n", "Animals/ws/proj/plants/trees/Oak.1.0.dsdl": "@sealed\n", "Animals/other/.keep": ""}
     diff = []
     with dsdlio.Tree(fs, "c15") as tr:
-        base = str(tr.root.resolve())
+        base = os.path.join(str(tr.root.resolve()), "Animals")
         cwd = os.path.join(base, *c["cwd"]) if c["cwd"] else base
         file_abs = os.path.join(base, rel_file)
         root_abs = os.path.join(base, "ws", "proj", "animals")
